@@ -58,7 +58,7 @@ def run(chk):
         from . import c05flat as flat  # provided with C12
         theorems += flat.flat_size_obligations()
         extra = [flat.MODULE]
-    except ImportError:
+    except (ImportError, AttributeError):
         flat = None
     proved = chk.prove(MODULE, theorems, extra_targets=extra)
     if chk.tier == 'thorough' and proved:
